@@ -360,6 +360,8 @@ EvEmptyQ == /\ Is("eq") /\ LET S == Settle(frames, done) IN
                   /\ (pending = <<>> /\ ~anyP) => Ev.r = 1
                /\ frames' = S.fr /\ done' = S.dn
             /\ UNCHANGED <<lst, flt, nn, nf, pending, pins>>
+\* the harness will destroy the queue without draining it
+EvEndNoDrain == Is("zz") /\ frames = <<>> /\ UNCHANGED <<lst, flt, nn, nf, pending, frames, done, pins>>
 \* end of one execution: the object was destroyed, nothing is alive
 EvReset == /\ Is("rs") /\ frames = <<>> /\ Ev.lv = 0 /\ Ev.pv = 0
            /\ lst' = [e \in Keys |-> <<>>] /\ flt' = <<>> /\ nn' = 0 /\ nf' = 0 /\ pending' = <<>>
@@ -371,7 +373,7 @@ Next == \/ ((EvAppendL \/ EvPrependL \/ EvInsertL \/ EvAppendCtr \/ EvAppendCond
         \/ EvThrowUser \/ EvDispatchExit \/ EvProcessExit \/ EvArm \/ EvFaulted \/ EvTakeFaulted
         \/ ((EvRemoveL \/ EvHasAnyL \/ EvOwnsL \/ EvForEachL \/ EvVisitL \/ EvAppendF \/ EvRemoveF
              \/ EvDispatchBegin \/ EvDispatchEnd \/ EvFilterBegin \/ EvFilterEnd \/ EvRet
-             \/ EvEnqueue \/ EvProcessBegin \/ EvPredBegin \/ EvPredEnd \/ EvProcessEnd \/ EvPeek \/ EvTake \/ EvClear \/ EvEmptyQ) /\ UR)
+             \/ EvEnqueue \/ EvProcessBegin \/ EvPredBegin \/ EvPredEnd \/ EvProcessEnd \/ EvPeek \/ EvTake \/ EvClear \/ EvEmptyQ \/ EvEndNoDrain) /\ UR)
         \/ ((EvEnter \/ EvCondBegin \/ EvCondEnd
              \/ EvSAdd \/ EvSRemove \/ EvSReset \/ EvSTarget \/ EvSMoveConstruct \/ EvSMoveAssign \/ EvSSwap \/ EvSDestroy \/ EvSCreate) /\ UA)
         \/ EvReset
